@@ -52,7 +52,10 @@ def enumerated(tier, seed):
         motifs = [{"kind": "clique", "m": s, "edges": [], "ret": "list", "names": f"t{j}" if algo == "fast" else [f"t{j}"] * (s * (s - 1) // 2),
                    "cols": [j], "orbit_sizes": [s]} for j, s in enumerate(sizes)]
         jds = [[c[v] for c in cols] for v in range(N)]
-        return {"algo": algo, "path": "class", "N": N, "jds": jds, "motifs": motifs, "rng": {"mode": "enum"}}
+        c = {"algo": algo, "path": "class", "N": N, "jds": jds, "motifs": motifs, "rng": {"mode": "enum"}}
+        if algo == "motifs":
+            c["indices_type"] = ["list", "tuple", "range"][len(cases) % 3]
+        return c
 
     for algo in ("fast", "motifs"):
         for N in range(1, Nmax + 1):
